@@ -75,6 +75,7 @@ type actorT struct {
 	view    string
 	ret     string
 	eager   bool // released into a lock that is held: blocked inside the implementation's Lock()
+	c       *eng // the case this actor belongs to (goroutines of finished cases never touch a later case)
 }
 
 // goid returns the id of the calling goroutine (harness-only: lock events are attributed to actors by goroutine)
@@ -99,47 +100,47 @@ type eng struct {
 	watches  []<-chan struct{}
 	draining bool
 	inits    map[string]func(statedb.WriteTxn)
-	ntab0    int // number of initial tables
-	byGo     map[uint64]*actorT
+	ntab0    int  // number of initial tables
 	poisoned bool // an actor got stuck: the rest of the case is not executed (each step would wait 5 s)
 }
 
-var cur *eng
-var curMu sync.Mutex
+// goroutine id -> actor, over all cases: a hook call is attributed to the actor (and thereby to the case)
+// whose goroutine makes it
+var (
+	goMu sync.Mutex
+	byGo = map[uint64]*actorT{}
+)
 
-func getCur() *eng {
-	curMu.Lock()
-	defer curMu.Unlock()
-	return cur
+func actorOfGoroutine() *actorT {
+	goMu.Lock()
+	defer goMu.Unlock()
+	return byGo[goid()]
 }
 
 func init() {
 	statedb.VerifHook = func(point, who string) {
-		e := getCur()
-		if e == nil {
+		a := actorOfGoroutine()
+		if a == nil {
 			return
 		}
+		e := a.c
 		e.mu.Lock()
-		a := e.byName[who]
 		dr := e.draining
 		e.mu.Unlock()
-		if a == nil || dr {
+		if dr {
 			return
 		}
 		a.park(e, point)
 	}
 	statedb.VerifSetLockHook(func(event string, seq uint64) {
-		e := getCur()
-		if e == nil {
-			return
-		}
-		e.mu.Lock()
-		a := e.byGo[goid()]
-		dr := e.draining
-		e.mu.Unlock()
+		a := actorOfGoroutine()
 		if a == nil {
 			return
 		}
+		e := a.c
+		e.mu.Lock()
+		dr := e.draining
+		e.mu.Unlock()
 		switch event {
 		case "locking":
 			e.mu.Lock()
@@ -171,19 +172,28 @@ func (a *actorT) park(e *eng, point string) {
 	<-a.resume
 }
 
-func (e *eng) Case(id string) {
-	if old := getCur(); old != nil {
-		old.drain()
+// outer is what hx.Main drives: it owns one fresh *eng per case
+type outer struct{ cur *eng }
+
+func (o *outer) Case(id string) {
+	if o.cur != nil {
+		go o.cur.drain() // actors of the finished case run to completion on their own state
 	}
-	*e = eng{}
+	e := &eng{}
 	e.db = statedb.New()
 	e.byName = map[string]*actorT{}
 	e.holder = map[uint64]*actorT{}
 	e.inits = map[string]func(statedb.WriteTxn){}
-	e.byGo = map[uint64]*actorT{}
-	curMu.Lock()
-	cur = e
-	curMu.Unlock()
+	o.cur = e
+}
+func (o *outer) Op(f []string, line string, out *hx.Out) {
+	if o.cur == nil {
+		o.Case("anon")
+	}
+	o.cur.Op(f, line, out)
+}
+func (o *outer) Gen(r *hx.Rand, n int, tier string, prop string, out *hx.Out) {
+	(&eng{}).Gen(r, n, tier, prop, out)
 }
 
 // drain lets every actor of a finished case run to completion (hooks become no-ops)
@@ -210,7 +220,7 @@ func (e *eng) drain() {
 				} else {
 					select {
 					case a.resume <- struct{}{}:
-					default:
+					case <-time.After(200 * time.Millisecond):
 					}
 				}
 			case <-deadline:
@@ -294,9 +304,14 @@ func (e *eng) viewOf(w statedb.WriteTxn, ntab int) (s string) {
 }
 
 func (e *eng) run(a *actorT) {
-	e.mu.Lock()
-	e.byGo[goid()] = a
-	e.mu.Unlock()
+	goMu.Lock()
+	byGo[goid()] = a
+	goMu.Unlock()
+	defer func() {
+		goMu.Lock()
+		delete(byGo, goid())
+		goMu.Unlock()
+	}()
 	defer func() {
 		if r := recover(); r != nil {
 			a.ret = "panic:" + hx.PanicClass(r)
@@ -478,7 +493,7 @@ func (e *eng) Op(f []string, line string, out *hx.Out) {
 		e.ntab0 = n
 		out.P("M:* ok")
 	case "actor":
-		a := &actorT{name: f[1], id: uint64(len(e.actors) + 1), kind: f[2], report: make(chan string, 1), resume: make(chan struct{})}
+		a := &actorT{name: f[1], id: uint64(len(e.actors) + 1), kind: f[2], report: make(chan string, 1), resume: make(chan struct{}), c: e}
 		if a.kind == "w" {
 			a.tabs, a.writes, a.commit = parseInts(f[3]), parseInts(f[4]), f[5] == "commit"
 			a.reg, a.done = parsePairs(f[6]), parsePairs(f[7])
@@ -612,7 +627,7 @@ func (e *eng) Op(f []string, line string, out *hx.Out) {
 	}
 }
 
-func main() { hx.Main(&eng{}) }
+func main() { hx.Main(&outer{}) }
 
 // stuckTimeout: how long the scheduler waits for an actor whose step is enabled to reach its next hook
 // point. Generous, because a false "stuck" on a heavily loaded machine would be a false alarm; a truly
